@@ -134,7 +134,16 @@ def cmd_run(ids):
             summary[sid] = {'own': own, 'fired': fired, 'errors': errs}
         finally:
             drop(d)
-    json.dump(summary, open(VERIF + '/seeded/RESULTS.json', 'w'), indent=1)
+    rp = VERIF + '/seeded/RESULTS.json'
+    allres = {}
+    if os.path.exists(rp):
+        try:
+            allres = json.load(open(rp))
+        except Exception:
+            allres = {}
+    allres.update(summary)
+    allres = dict((k, v) for k, v in allres.items() if os.path.isdir(os.path.join(base, k)))
+    json.dump(allres, open(rp, 'w'), indent=1, sort_keys=True)
 
 
 if __name__ == '__main__':
